@@ -62,8 +62,12 @@ def run(ctx):
     XC.corr_strings(ctx, XC.DIRECTED, oracle='wf')
     XC.corr_strings(ctx, XC.short_strings(2), oracle='wf')
     XC.corr_strings(ctx, (X.rand_text(ctx.rng, 30) for _ in range(500 if ctx.quick else 10000)), oracle='wf')
-    for i in range(250 if ctx.quick else 4000):
-        t = X.rand_tree(ctx.rng)
+    E_ = X.ELEMS[0]
+    directed = [('E', E_, [], [('T', 'a]]'), ('T', '>b')]), ('E', E_, [], [('T', ']'), ('T', ']>')]), ('E', E_, [], [('T', ']'), ('T', ']'), ('T', '>')]),
+                ('E', E_, [], [('T', 'x]]'), ('C', ''), ('T', '>')]), ('E', E_, [], [('C', 'a]]'), ('T', '>b')]), ('E', E_, [], [('T', 'a]]'), ('C', '>b')]),
+                ('E', E_, [], [('C', ']]'), ('C', '>')]), ('E', E_, [], [('T', '&'), ('T', 'amp;')]), ('E', E_, [], [('T', '<'), ('T', '!--')]), ('E', E_, [], [('T', '&#'), ('T', '60;')])]
+    for i in range(-len(directed), 250 if ctx.quick else 4000):
+        t = directed[i] if i < 0 else X.rand_tree(ctx.rng)      # first: neighbouring nodes whose data joins to a marker
         e, real, ex = XC.corr_tree(ctx, t)
         wf(ctx, 'Element.toXml', real, t)
         if i < 2: ctx.sample({'tree': t, 'xml_tail': real[-160:]})
